@@ -149,3 +149,46 @@ def enc_text(s):
 def canon(x):
     """Canonical JSON text (C02 'serialises to exactly the same JSON')."""
     return json.dumps(x, sort_keys=True, ensure_ascii=True, allow_nan=False)
+
+
+DECISION_FIELDS = ("local_diff", "remote_diff", "conflict", "action", "custom_diff", "common_path", "similar_insert")
+
+
+def _enc_optdiff(v):
+    if v is None:
+        return [], True, True
+    if isinstance(v, (list, tuple)):
+        return enc_diff(list(v)), False, True
+    return [], False, False
+
+
+def enc_decision(dec):
+    """Merge decision (dict-like) -> encoded record of spec/MergeFormat.tla."""
+    out = {}
+    path = dec.get("common_path", ())
+    path_ok = isinstance(path, (list, tuple)) and all(
+        (isinstance(k, str) or (isinstance(k, int) and not isinstance(k, bool))) for k in path)
+    out["common_path"] = enc_path(path if isinstance(path, (list, tuple)) else ())
+    out["path_ok"] = bool(path_ok)
+    c = dec.get("conflict", None)
+    out["conflict_ok"] = isinstance(c, bool)
+    out["conflict"] = bool(c)
+    a = dec.get("action", None)
+    out["action"] = a if isinstance(a, str) else "?"
+    ok = True
+    for src, dst in (("local_diff", "local"), ("remote_diff", "remote"), ("custom_diff", "custom"),
+                     ("similar_insert", "similar")):
+        d, isnull, good = _enc_optdiff(dec.get(src, None))
+        name = dst + "_diff" if dst != "similar" else "similar"
+        out[name] = d
+        out[dst + "_null"] = isnull
+        ok = ok and good
+    extra = [str(k) for k in dec.keys() if k not in DECISION_FIELDS]
+    if not ok:
+        extra.append("<non-list diff>")
+    out["extra"] = extra
+    return out
+
+
+def enc_decisions(ds):
+    return [enc_decision(d) for d in ds]
